@@ -150,7 +150,12 @@ def run(chk):
         # all accepted ones that are not trivially equal plus a sample of rejected ones
         acc = [c for c in chosen if not c["rejected"]]
         rej = [c for c in chosen if c["rejected"]]
-        plan = acc[:250 if quick else 2500] + rej[:120 if quick else 1200]
+        # every one- and two-flag invocation always takes part (in all three modes), longer ones are sampled
+        short = [c for c in chosen if len(c["argv"]) <= 2]
+        rest_acc = [c for c in acc if len(c["argv"]) > 2]
+        rest_rej = [c for c in rej if len(c["argv"]) > 2]
+        plan = short + rest_acc[:150 if quick else 2500] + rest_rej[:60 if quick else 1200]
+        nshort = len(short)
         cases, meta = [], {}
         reps = 2 if quick else 4
         for i, inv in enumerate(plan):
@@ -158,7 +163,12 @@ def run(chk):
             args = []
             for a in inv["argv"]:
                 args += ["-" + a["flag"], a["name"]] if (i + len(args)) % 2 == 0 else ["--%s=%s" % ({"d": "disable", "e": "enable"}[a["flag"]], a["name"])]
-            for rep in range(reps):
+            if i % 3 == 1:
+                # options that have nothing to do with the selection (a valid extension mapping, an ignore glob that
+                # matches nothing) change neither the verdict on the flags nor the report
+                extra = [["-E", "pyx=py"], ["--ignore", "nothing/here/**"], ["-E", "pyx=py", "--ignore=nothing/**"]][(i // 3) % 3]
+                args = extra + args if (i // 9) % 2 else args + extra
+            for rep in range(3 if i < nshort else reps):
                 cid = "inv-%d-%d" % (i, rep)
                 mode = ("diff", "glob", "scan")[(i // nrepos + rep) % 3]
                 case = {"id": cid, "files": repos[ri]["files"], "diff": repos[ri]["diff"], "args": args, "terminal": False, "env": env}
